@@ -8,7 +8,7 @@ from pathlib import Path
 from . import tlc
 from .common import MachineryFailure, scratch
 
-_VERDICT = re.compile(r'<<"VERDICT", "((?:[^"\\]|\\.)*)", "((?:[^"\\]|\\.)*)">>')
+_VERDICT = re.compile(r'<<\s*"VERDICT",\s*"((?:[^"\\]|\\.)*)",\s*"((?:[^"\\]|\\.)*)"\s*>>')
 
 
 def _parse_set(s: str) -> list[str]:
